@@ -130,7 +130,7 @@ Qed.
 
 (* projections of the helper results *)
 Lemma ran_consume i ran m : r_ran (consume i ran m) = ran.
-Proof. unfold consume, nothing. destruct (i_fam i), (i_signed i), (i_off i =? 0); reflexivity. Qed.
+Proof. unfold consume, nothing. destruct (i_fam i), (i_signed i && i_fka i), (i_off i =? 0); reflexivity. Qed.
 Lemma ran_modify i ran : r_ran (modify_command i ran) = ran.
 Proof. unfold modify_command. destruct (i_signed i && i_fka i); reflexivity. Qed.
 Lemma ran_forward i ran : r_ran (forward_command i ran) = ran.
@@ -172,7 +172,7 @@ Proof.
 Qed.
 
 Lemma consume_no_cmd i ran m : cmd_packets (r_backend (consume i ran m)) = [].
-Proof. unfold consume, nothing. destruct (i_fam i), (i_signed i), (i_off i =? 0); reflexivity. Qed.
+Proof. unfold consume, nothing. destruct (i_fam i), (i_signed i && i_fka i), (i_off i =? 0); reflexivity. Qed.
 
 (* a denied command never reaches the backend (both models) *)
 Lemma denied_never_forwarded fixed i :
@@ -222,7 +222,7 @@ Definition disc_quiet (r : result) : Prop := r_disc r = true -> cmd_packets (r_b
 Lemma consume_quiet i ran m : disc_quiet (consume i ran m).
 Proof.
   unfold disc_quiet, consume, nothing. destruct (i_fam i); try (cbn; discriminate);
-  destruct (i_signed i); cbn; auto; destruct (i_off i =? 0); cbn; discriminate.
+  destruct (i_signed i && i_fka i); cbn; auto; destruct (i_off i =? 0); cbn; discriminate.
 Qed.
 Lemma modify_quiet i ran : disc_quiet (modify_command i ran).
 Proof. unfold disc_quiet, modify_command. destruct (i_signed i && i_fka i); cbn; [auto|discriminate]. Qed.
@@ -365,9 +365,9 @@ Proof.
         destruct Hc as [->|[-> _]]; rewrite beq_bytes_refl; [reflexivity|apply orb_true_r].
 Qed.
 
-Lemma impl_eq_spec_off_trigger_lemma i : trigger1 i = false -> impl_decide i = spec_decide i.
+Lemma prefix_eq_spec_off_trigger_lemma i : trigger1 i = false -> prefix_decide i = spec_decide i.
 Proof.
-  unfold trigger1, impl_decide, spec_decide, decide. destruct (i_fam i) eqn:Efam; try reflexivity.
+  unfold trigger1, prefix_decide, spec_decide, decide. destruct (i_fam i) eqn:Efam; try reflexivity.
   unfold decide_keyed. destruct (i_denied i); [reflexivity|]. destruct (i_forward i); [|reflexivity].
   cbn [negb andb]. unfold keyed_rewrite_forward_branch, strict_key.
   destruct (i_signed i), (i_keyrev i =? 2), (i_fka i), (beq_bytes (i_cmd i) (i_line i)); cbn;
@@ -381,9 +381,9 @@ Definition c22_witness : input :=
 Lemma C22_refuted_lemma :
   trigger1 c22_witness = true /\
   i_denied c22_witness = false /\ kept_by_proxy c22_witness = false /\
-  r_disc (impl_decide c22_witness) = false /\
-  cmd_packets (r_backend (impl_decide c22_witness)) = [] /\
-  holds_C22 c22_witness (impl_decide c22_witness) = false.
+  r_disc (prefix_decide c22_witness) = false /\
+  cmd_packets (r_backend (prefix_decide c22_witness)) = [] /\
+  holds_C22 c22_witness (prefix_decide c22_witness) = false.
 Proof. vm_compute. repeat split; reflexivity. Qed.
 
 (* ---------- non-vacuity ---------- *)
